@@ -601,7 +601,14 @@ func zsetClosure(arg json.RawMessage) interface{} {
 	}
 	checkState(nil)
 	out.States = 1
+	maxPath := 2*len(members) + 1 // every state of a correct skip list is reached well before
+	depth := 0
 	for len(frontier) > 0 {
+		depth++
+		if depth > maxPath || len(out.Viol) > 0 && depth > len(members)+2 {
+			// a broken structure can have an unbounded state space (spans drifting): stop at the bound
+			break
+		}
 		var next []node
 		for _, nd := range frontier {
 			for _, o := range muts {
@@ -633,7 +640,7 @@ func zsetClosure(arg json.RawMessage) interface{} {
 		}
 		frontier = next
 	}
-	out.Closed = true
+	out.Closed = len(frontier) == 0
 	out.Sample = fmt.Sprintf("members %q x scores %v x skip-list levels %v: every reachable (score,key,level) layout; in each: all GetByScoreRange bounds %v x exclude flags x limits, GetByRankRange -6..6, ranks, peeks, structural invariants", members, scores, levels, bounds)
 	return out
 }
@@ -642,9 +649,18 @@ func runStruct(r *Run, what string, big bool) {
 	raw, ok := r.Pool.Custom("struct-"+what, structJob{What: what, Big: big})
 	var o structOut
 	if !ok || json.Unmarshal(raw, &o) != nil {
+		// the exploration of the structure hung or killed its worker: that is a violation (a call
+		// that does not return), not a cap
+		prop := map[string]string{"list": "C05", "set": "C06", "zset": "C07"}[what]
+		r.Col.Add(eng.Violation{Prop: prop, Kind: "hang", What: "ds/" + what + ":closure-hang", Atoms: []string{"ds/" + what + ":closure-hang"},
+			Detail: []string{"the structure-level exploration of ds/" + what + " did not finish within its 600 s watchdog or killed its worker"}, Extra: map[string]interface{}{"profile": "struct"}})
 		r.Stats.Exhaustive = false
 		r.Stats.CapsHit = append(r.Stats.CapsHit, "structure closure "+what+": worker died")
 		return
+	}
+	if !o.Closed {
+		r.Stats.Exhaustive = false
+		r.Stats.CapsHit = append(r.Stats.CapsHit, "structure closure "+what+": path-length bound reached before closure")
 	}
 	r.Stats.Transitions += o.Transitions
 	r.Stats.Evals += o.Queries
@@ -667,4 +683,17 @@ func init() {
 	customHandlers["struct-list"] = listClosure
 	customHandlers["struct-set"] = setClosure
 	customHandlers["struct-zset"] = zsetClosure
+}
+
+// ZDebug is a debugging aid: remove a low node in front of a tall one and dump the skip list.
+func ZDebug() string {
+	ss := zset.New()
+	core.Levels = []int{1}
+	ss.Put("a", -1, []byte("va"))
+	core.Levels = []int{2}
+	ss.Put("b", 0, []byte("vb"))
+	core.Levels = nil
+	d1 := ss.VerifDump()
+	ss.Remove("a")
+	return d1 + "\n" + ss.VerifDump() + "\ncheck: " + ss.VerifCheck() + fmt.Sprint(" rank(b)=", ss.FindRank("b"))
 }
